@@ -115,4 +115,15 @@ PROPS = {
             "thorough": [dict(test="TestC05Handle", checks=150000, shards=16, timeout=3000)],
         },
     ),
+    "C13": dict(
+        kind="ext", pkg="./c13", level="exploration", engine="memnet",
+        technique="property-based adversary search (rapid + synctest) against production bcast components over an in-memory libp2p stand-in; history invariant over all deliveries and all signatures seen on the wire",
+        level_text="Production bcast.New components for the honest members, one member played by the harness with its real key; generated interleavings of honest broadcasts, per-receiver equivocating signature requests, "
+                   "assembled / permuted / truncated / substituted signature lists (other id, payload, session), relays under the faulty identity, drops and duplicates. Oracle over every callback invocation.",
+        level_note="One faulty member (any index); k1 signatures are real; the harness restates the signed digest to sign as the faulty member, a positive control fails as a harness error if that digest no longer matches production.",
+        runs={
+            "quick": [dict(test="TestC13Broadcast", checks=1200, shards=4), dict(test="TestC13PositiveControl", mode="plain")],
+            "thorough": [dict(test="TestC13Broadcast", checks=40000, shards=16, timeout=3000), dict(test="TestC13PositiveControl", mode="plain")],
+        },
+    ),
 }
